@@ -77,6 +77,9 @@ def families(tier, seed):
     L = 5 if tier == 'quick' else 9
     for fml in pn.E2E:
         out.append(dict(name=f'translate e2e L={L} {fml}', run=pn.h_translate_e2e(fml, L), label='bounded'))
+    out.append(dict(name='syntax.conj / syntax.disj with constant operands', run=pn.h_conj_disj(), label='bounded'))
+    for fml in pn.E2E_MIXED:
+        out.append(dict(name=f'translate mixed past/future (until=True) L={L} {fml}', run=pn.h_translate_mixed(fml, min(L, 6)), label='bounded'))
     for fml in pn.E2E_UNTIL:
         out.append(dict(name=f'translate e2e (until=True) L={L} {fml}', run=pn.h_translate_e2e(fml, L, until=True), label='bounded'))
     return out
